@@ -398,7 +398,7 @@ func init() {
 		if err != nil {
 			return map[string]any{"error": err.Error()}, nil
 		}
-		return canonReport(rep, false), nil
+		return canonReport(rep, boolv(req, "all")), nil
 	})
 	register("kernel.lint", func(req map[string]any) (any, error) {
 		var c kCase
